@@ -26,6 +26,9 @@ CLAIMED["C05"] = dict(level="fault_enumeration", ref="DESIGN.md §4 C05", techni
 CLAIMED["C20"] = dict(level="exploration", ref="DESIGN.md §4 C20", technique="deterministic simulation with NodeReporting enabled; introspection snapshots at every idle point compared with the links implied by the frames the remotes have read",
      text="Seeded search over link/unlink/sync churn, remote disconnects, freezes, stop and time-out with introspection reporting enabled; at every idle point each lane's and the agent's reported uplink count must equal the number of links open according to the frames read (bounds when a remote is frozen or disconnected), the aggregate must equal the sum of the lanes, and the sums of all snapshots must account for every event frame read and every command delivered.",
      note="as C01; lane failure and the component-level Links / shuttle parts are not built yet")
+CLAIMED["C06"] = dict(level="exploration", ref="DESIGN.md §4 C06", technique="deterministic simulation of the real agent model + runtime running generated handler programs (sent as commands) under seeded schedules and timer delays; recorded effect trace compared with a reference interpreter of the documented handler semantics",
+     text="Seeded generated acyclic handler programs (trees of set/update/remove/clear/get/effect/and_then/followed_by/sequentially/suspend/fail over 3 value items and 2 map lanes whose derived lifecycle handlers themselves run generated programs) are sent as commands to a real derived agent running on the real agent runtime under the seeded executor with drawn channel sizes, budgets and suspension delays; the trace recorded through effect closures must equal, entry by entry, what a reference interpreter of docs/event_handler.md yields (depth-first, on_event then on_set with the true previous value, on_update/on_remove/on_clear with the true previous entry and map, exactly one trigger per change, on_start first, on_stop last, nothing of a failed handler or of the handlers it interrupted after the failure).",
+     note="the order of top-level triggers is taken from the trace (schedule dependent); where the documents are silent the reference follows the code (listed in the evidence assumptions); cyclic programs are not generated")
 CLAIMED["C07"] = dict(level="exploration", ref="DESIGN.md §4 C07", technique="deterministic simulation of the real downlink runtime shared by scripted consumers against a scripted remote lane; session, ordering, supersession and final-state oracles",
      text="Seeded search over arrival times of 1-4 consumers (with/without SYNC and KEEP_LINKED), their command streams, read speeds and drops, remote notification sequences (external changes, unlink), channel capacities and schedules on the real Value/MapDownlinkRuntime; each consumer must get linked, (if asked) synced with a state the lane held, every later event in order, unlinked at close; on the socket side commands arrive in order where order matters (value: totally, map: per key and across a clear), nothing is duplicated or invented, and the lane ends as if every command had been sent; with consumers attached, passing time must not stop the runtime.",
      note="remote lane and consumers are harness code (the harness frames notifications itself); one writer per map key, clears only in single-writer runs")
